@@ -77,3 +77,32 @@ LEVEL_NOTE = ("Trusted: Lean kernel; Model/Match.lean (the code's orderings as r
               "incompatible policies are not modelled here.")
 TECHNIQUE = "Lean 4 theorem (code's decision function = DDS RxO table, for all QoS values) + differential correspondence through cfg hooks"
 DESIGN_REF = "DESIGN.md section 5 C15"
+
+
+# ---- BEGIN partition / topic-name part (builder w2b; everything it needs is in vlib/partition_common.py) -----------------
+# Lean: Model/Partition.lean + Props/C15Partition.lean (theorems C15_partition_*); Rust: `glob` op of harness/src/bin/match.rs
+# (hook verif_partition_pattern_is_match) and end-to-end scenarios on the simulator through the `matchset` engine.
+from vlib import partition_common as _pc
+
+BINS = sorted(set(["match"] + _pc.PART_BINS))
+LEAN_MODULES = ["DustVerif.Props.C15"] + _pc.PART_LEAN_MODULES
+RULE += ("; PARTITION part: (pattern, name) pairs over literals, *, ?, [..], [!..], + (non-trivial when the pattern has a glob "
+         "character) and end-to-end publisher/subscriber partition lists of 0-2 names from a small alphabet incl. the empty name, "
+         "*, A*, ?1, [a-b]1, a+ on equal/different topic names (non-trivial when a list is non-empty)")
+ASSUMPTIONS = [a for a in ASSUMPTIONS if not a.startswith("topic name, type and partition matching are outside")] + [
+    "partition patterns are restricted to literals, *, ?, [..] with alphanumeric members/ranges, [!..]/[^..], and + after a literal, ? or class; "
+    "backslash escapes, unclosed/empty classes and other regex syntax inside classes are outside the Lean glob matcher (the driver answers bad-op)",
+    "type matching is not varied (one type); the end-to-end partition scenarios assume the network abstraction of C16 (notes/w2b.md)"]
+LEVEL_TEXT += (" PARTITION part: the inline partition test is modelled in Model/Partition.lean (glob matcher = fnmatch_to_regex + regex folded "
+               "together, validated pair by pair against the real translation + regex crate through a hook, and end to end on the simulator); "
+               "proved for all name lists: both sides reach the same verdict (C15_partition_symmetric), the empty list matches only the empty "
+               "list (C15_partition_empty_iff), on non-empty pattern-free lists the verdict is the DDS rule 'a common name' "
+               "(C15_partition_plain_partial), the executable glob matcher accepts exactly the declarative reading of a pattern (C15_partition_glob_spec); open finding D20 with Lean witnesses: [] does not match [\"\"] nor [\"*\"], a pattern is matched "
+               "against the other side's patterns, + is a regex quantifier.")
+_run_rxo_part = run
+
+
+def run(ctx):
+    _run_rxo_part(ctx)
+    _pc.run_partition_part(ctx)
+# ---- END partition / topic-name part ---------------------------------------------------------------------------------
